@@ -336,7 +336,7 @@ of the generated `Gen.fieldWiring`; a change of that wiring in wavefront.py brea
 theorem wfField_eq [Add K] [Mul K] [Zero K] (one : K) (s0 s1 : Int) (data : List (Fld K)) :
     wfField one s0 s1 data = data.foldl (fun out f => insertArr f out one) (zerosArr s0 s1) := by
   unfold wfField viewRun
-  simp only [Gen.fieldWiring, Bool.false_eq_true, if_false]
+  simp only [Gen.fieldWiring, Bool.false_eq_true, if_false, if_true]
   rw [foldl_insertStep_some]
   rfl
 
@@ -344,7 +344,7 @@ theorem wfField_eq [Add K] [Mul K] [Zero K] (one : K) (s0 s1 : Int) (data : List
 theorem wfInsert_eq [Add K] [Mul K] [Zero K] (nsq : K → K) (data : List (Fld K)) (out : Arr K) (w : K) :
     wfInsert nsq data out w = (reduce data).foldl (insertStep nsq w) (some out) := by
   unfold wfInsert viewRun
-  simp only [Gen.insertWiring, if_true]
+  simp only [Gen.insertWiring, if_true, Bool.false_eq_true, if_false]
 
 /-- **`Wavefront.intensity` is `insert` into zeros with weight 1** (`Gen.intensityWiring`: through `reduce`, `intensity=True`) -/
 theorem wfIntensity_eq [Add K] [Mul K] [Zero K] (one : K) (nsq : K → K) (s0 s1 : Int) (data : List (Fld K)) :
@@ -352,6 +352,7 @@ theorem wfIntensity_eq [Add K] [Mul K] [Zero K] (one : K) (nsq : K → K) (s0 s1
   rw [wfInsert_eq]
   unfold wfIntensity viewRun
   simp only [Gen.intensityWiring, if_true, Bool.false_eq_true, if_false]
+  rfl
 
 end Lentil
 
